@@ -884,6 +884,7 @@ class CompilerPassGenerateCode(CompilerPass):
         if not value_sym.code_expr:
             value_sym.code_expr = self.get_intermediate_symbol(node, True).code_expr
         data = node._ndata
+        data.end_label = end_label
         data.add(IC10("move", [for_label], value_sym))
         data.add(IC10(f"{for_label}:"))
         for v in values:
